@@ -31,6 +31,10 @@ Check (C13_id_survives_a_kill) : (forall r k o name id, bget name (lane_ids r) =
 Print Assumptions C13_id_survives_a_kill.
 Check (C13_ids_never_collide_with_kills) : (forall hs name1 name2 id, let r := hrun_state rocks0 hs in bget name1 (lane_ids r) = Some id -> bget name2 (lane_ids r) = Some id -> name1 = name2).
 Print Assumptions C13_ids_never_collide_with_kills.
+Check (C13_outright_kill_loses_nothing) : (forall r o, let r' := rocks_kill r 0 o in value_ks r' = value_ks r /\ map_ks r' = map_ks r /\ lane_ids r' = lane_ids r /\ lane_counter r' = lane_counter r).
+Print Assumptions C13_outright_kill_loses_nothing.
+Check (C13_outright_kills_are_reopenings) : (forall hs, only_outright hs = true -> forall r, hrun_state r hs = rocks_run_state r (map as_sop hs)).
+Print Assumptions C13_outright_kills_are_reopenings.
 Check (C13_F1_name_not_injective_refuted) : (exists a n a' n', (a, n) <> (a', n') /\ lane_name a n = lane_name a' n').
 Print Assumptions C13_F1_name_not_injective_refuted.
 Check (C13_wf_kept) : (forall ks id k v, WF ks -> U56 id -> WF (bput (ser_map_key id k) v ks) /\ WF (bdel (ser_map_key id k) ks) /\ WF (delete_range ks (ser_map_prefix id) (ser_map_ubound id))).
